@@ -444,6 +444,15 @@ func runC18(c *Ctx) {
 			"agree", fmt.Sprintf("writer header=%d version=%s; reader nonce=[%d:%d] payload=[%d:] minLen=%d sameVersion=%v", hdr, ver, lo, hi, pay, minLen, readerVer))
 	}
 
+	// ---------- R18.10 strings written as plain scalars are read back raw
+	c.Rule("R18.10", "E5", "metadata YAML: the writer emits label/annotation/finalizer strings as untagged plain scalars, so the reader takes scalar nodes' raw Value and never lets the YAML decoder re-type them (`null`, `~`, `2021-06-23`, `1e3` would not come back as the strings they were)", 1)
+
+	if f := p.Method(pkgResource, "Metadata", "UnmarshalYAML"); c.NeedFunc("R18.10", f, "Metadata.UnmarshalYAML") {
+		typed := p.CallTo("(*go.yaml.in/yaml/*).Decode", "go.yaml.in/yaml/*.Unmarshal", "(*gopkg.in/yaml*).Decode", "gopkg.in/yaml*.Unmarshal")
+		c.Check(!p.ReachesCall(f, typed, 4), "R18.10", FuncName(f)+" :: scalar nodes are read through .Value only", fpos(f), "no typed decode below UnmarshalYAML",
+			"a typed YAML decode is reachable from Metadata.UnmarshalYAML: plain scalars written by the encoder are re-resolved (null/~ become empty, date-like strings fail)")
+	}
+
 	// ---------- R18.9 error propagation
 	c.Rule("R18.9", "E3", "each marshaler layer returns the inner layer's error", 8)
 
